@@ -22,9 +22,10 @@ def rows(sel):
 w4 = rows(lambda s: s.endswith(("-m5", "-m6")) or s == "C02-m4")
 w5 = rows(lambda s: s.endswith(("-m7", "-m8")))
 w6 = rows(lambda s: s.endswith(("-m9", "-m10")))
+w7 = rows(lambda s: s.endswith(("-m11", "-m12")))
 def count(rs):
     return sum("| as built" in r for r in rs), len(rs)
-a4, n4 = count(w4); a5, n5 = count(w5); a6, n6 = count(w6)
+a4, n4 = count(w4); a5, n5 = count(w5); a6, n6 = count(w6); a7, n7 = count(w7)
 nd = [s for s, m in metas.items() if "check" in m and not m.get("detected")]
 block = f"""<!-- seeded-tables-begin -->
 **Wave 4** ({n4} changes incl. the recreated C02-m4, two per claimed property, numbered m5/m6). "as built" = the checks as
@@ -52,7 +53,16 @@ checks as they stood when the change arrived, i.e. after the wave-4 additions:
 |--------|---------------------------|--------|---------------------------|
 """ + "\n".join(w6) + f"""
 
-{a6} of {n6} as built, {n6 - a6} after the listed additions. Not detected by the committed checks: {nd or 'none'}.
+{a6} of {n6} as built, {n6 - a6} after the listed additions.
+
+**Wave 7** ({n7} changes, m11/m12, for C01, C07, C13, C18, C19; the sub-agents were given the property text and one-line
+summaries of the earlier changes to that property, nothing from /verif):
+
+| change | what it needs to manifest | caught | first violated obligation |
+|--------|---------------------------|--------|---------------------------|
+""" + "\n".join(w7) + f"""
+
+{a7} of {n7} as built, {n7 - a7} after the listed additions. Not detected by the committed checks: {nd or 'none'}.
 <!-- seeded-tables-end -->"""
 p = os.path.join(ROOT, "DESIGN.md")
 s = open(p).read()
